@@ -125,10 +125,10 @@ def looseEq (env : Env) : PV → PV → Option Bool
   | .bool _ b1, .bool _ b2 => some (b1 == b2)
   | .str _ s, .regex _ r =>
     match env.regex r s with
-    | .compileErr => some false | .matchErr => none | .isMatch b => some b
+    | .compileErr => some false | .matchErr => some false | .isMatch b => some b
   | .regex _ r, .str _ s =>
     match env.regex r s with
-    | .compileErr => some false | .matchErr => none | .isMatch b => some b
+    | .compileErr => some false | .matchErr => some false | .isMatch b => some b
   | .regex _ r, .regex _ s => some (r == s)
   | .int _ v, .rangeInt _ lo hi incl => some (isWithinKey lo hi v incl)
   | .float _ v, .rangeFloat _ lo hi incl => some (isWithinF64 lo hi v incl)
